@@ -14,7 +14,8 @@ RULE = (
     "Oracle: independent exact optimiser (own stem finder, conflict graph, branch-and-bound over proper "
     "colourings) - compares SCORES, never strings; also properness, Grundy condition (no stem could move lower), "
     "score >= FCFS score, pseudoknot-free => only round brackets; both BpSeq.dot_bracket and "
-    "convert_to_dot_bracket(CBC). Non-trivial: >=2 mutually crossing stems of different lengths; distinct = "
+    "convert_to_dot_bracket(CBC); additionally convert_to_dot_bracket with a scripted solver that gives up (4 "
+    "non-optimal statuses or PulpSolverError, variables unset or half-set): still proper and >= FCFS. Non-trivial: >=2 mutually crossing stems of different lengths; distinct = "
     "distinct (sequence, pair set)."
 )
 ASSUMPTIONS = [
@@ -34,11 +35,13 @@ def _check_levels(tag, structure, seq, pairs, st, g, opt, fcfs_score):
         out.append(D(f"C02:{tag}:improper", f"{structure!r}: crossing stems share a level; levels {levels}"))
         return out
     sc = ssref.score(levels, st)
-    if sc < opt:
+    if opt is None:
+        pass
+    elif sc < opt:
         out.append(D(f"C02:{tag}:suboptimal", f"{structure!r} scores {sc}, optimum {opt}; stems {st}"))
     elif sc > opt:
         raise HarnessError(f"reference optimum {opt} below achieved proper score {sc} on {pairs}")
-    if not ssref.is_grundy(levels, g):
+    if opt is not None and not ssref.is_grundy(levels, g):
         out.append(D(f"C02:{tag}:stem-could-move-lower", f"{structure!r}: levels {levels} not greedy-stable"))
     if fcfs_score is not None and sc < fcfs_score:
         out.append(D(f"C02:{tag}:worse-than-fcfs", f"{structure!r} scores {sc} < FCFS {fcfs_score}"))
@@ -71,6 +74,21 @@ def oracle(case) -> list:
     b2 = BpSeq.from_string(text)
     solver = pulp.PULP_CBC_CMD(msg=False)
     out += _check_levels("convert", b2.convert_to_dot_bracket(solver).structure, seq, pairs, st, g, opt, fcfs_score)
+    if comps:
+        # the same entry point with a solver that cannot deliver an optimum (gives up with a non-optimal status
+        # or raises PuLP's solver error): optimality cannot be demanded, properness and ">= FCFS" still can
+        from rnaverif.props.c13 import _make_scripted
+
+        Scripted = _make_scripted(pulp)
+        for beh in ("notsolved", "undefined", "unbounded", "infeasible", "raise"):
+            for varmode in ("unset", "half"):
+                b3 = BpSeq.from_string(text)
+                try:
+                    s3 = b3.convert_to_dot_bracket(Scripted([(beh, varmode)])).structure
+                except Exception as exc:  # totality is C13's claim; here it only means nothing to judge
+                    out.append(D(f"C02:giveup:raised:{type(exc).__name__}", f"solver behaviour {beh}/{varmode}: {exc!r}"[:300]))
+                    continue
+                out += _check_levels(f"giveup", s3, seq, pairs, st, g, None, fcfs_score)
     return out
 
 
